@@ -239,6 +239,43 @@ class C17:
                   "finished() no longer brings related deferred entries back to normal priority (they stay deferred after the obstacle is gone)")
 
 
+    def a8_a9(self):
+        rep, ctx = self.rep, self.ctx
+        rep.rule("C17.A8", "the priority follows the path: whenever _change_path stores a new path it recomputes prioritize(side, path) and adopts it "
+                 "whenever it differs from the current priority (no other condition) - a negative ('immediately') priority does not outlive its path", expect_min=1)
+        f = self.state.methods["_change_path"]
+        side, ent, path = f.params()[1:4]
+        sets = [n for n in ctx.own_nodes(f) if isinstance(n, ast.Assign) and pat.match("%s.priority" % ent, n.targets[0]) is not None]
+        good = bool(sets)
+        detail = "no store to the priority in _change_path"
+        for s_ in sets:
+            v = s_.value
+            src = None
+            if isinstance(v, ast.Name):
+                ds = [d for d in ctx.own_nodes(f) if isinstance(d, ast.Assign) and isinstance(d.targets[0], ast.Name) and d.targets[0].id == v.id]
+                src = ds[0].value if len(ds) == 1 else None
+            elif isinstance(v, ast.Call):
+                src = v
+            ok_src = src is not None and pat.match("self.prioritize(%s, %s)" % (side, path), src) is not None
+            facts = ctx.facts_at(f, s_)
+            allowed = {(path, True), ("prior_path == %s" % path, False)}
+            extra = [x for x in facts if x not in allowed and not ((not x[1]) and x[0].replace(" ", "") in ("%s==%s.priority" % (getattr(v, "id", "?"), ent), "%s.priority==%s" % (ent, getattr(v, "id", "?"))))]
+            good = good and ok_src and not extra
+            detail = "value from prioritize(side, path): %s; extra guards: %s" % (ok_src, extra)
+        rep.check("C17.A8", "_change_path|priority", f, good, "priority := prioritize(side, path) whenever it differs",
+                  "the entry's priority no longer follows its path (%s): e.g. an 'immediately' priority survives a rename and bypasses ageing" % detail)
+        rep.rule("C17.A9", "a failing entry always loses rank: every handler of the sync step punts the entry (alias of C10.T2), so the oldest "
+                 "eligible entry cannot starve the younger ones by failing for ever", expect_min=3)
+        from rules.C10 import C10
+        rep.rules["C10.T2"] = "alias"
+        C10(ctx, rep).t2()
+        for i in rep.instances:
+            if i.rule == "C10.T2":
+                i.rule = "C17.A9"
+        rep.rules.pop("C10.T2", None)
+        rep.expect.pop("C10.T2", None)
+
+
 def _is_time_call(e) -> bool:
     return isinstance(e, ast.Call) and pat.match("time.time()", e) is not None
 
@@ -248,4 +285,5 @@ def run(ctx: Ctx, rep: Report, tier: str):
     c.a1_a3()
     c.a4()
     c.a5_a7()
+    c.a8_a9()
     rep.assume("time.time() is the clock the property's 'now' refers to")
